@@ -13,7 +13,7 @@ POOL = {
     "plain": ["abc", "either-or", "--mode=and", "a:b", "x/y.txt", "-f"],
     "space": ["a b", " lead", "two  spaces "],
     "star": ["*zz*", "q?q", "[ab]x"],
-    "dollar": ["$VERIFVAR", "pre$VERIFVAR", "$VERIFVAR/x"],
+    "dollar": ["$VERIFVAR", "pre$VERIFVAR", "$VERIFVAR/x", "$VERIFTPL $VERIFDIR", "$VERIFDIRS $VERIFDIR"],
     "tilde": ["~", "~/sub"],
     "quotes": ["a'b", 'a"b', "a'b\"c"],
     "bslash": ["a\\", "\\"],
@@ -23,6 +23,7 @@ POOL = {
     "nonascii": ["ü𝄞", "日本"],
 }
 VAL = "VALUE OF VAR"  # contains spaces: must not be re-split
+ENVV = {"VERIFVAR": VAL, "VERIFTPL": "cost:$VERIFDIR", "VERIFDIR": "/srv/data"}  # VERIFDIRS stays unset
 
 
 def setup(wd):
@@ -34,7 +35,8 @@ def setup(wd):
         return 0
 
     XSH.aliases["argv"] = argv
-    XSH.env["VERIFVAR"] = VAL
+    for k, v in ENVV.items():
+        XSH.env[k] = v
     XSH.env["EXPAND_ENV_VARS"] = True
     d = os.path.join(wd, "cwd")
     os.makedirs(d, exist_ok=True)
@@ -46,7 +48,11 @@ def setup(wd):
 
 
 def expanded(s, home):
-    out = s.replace("$VERIFVAR", VAL)
+    import re
+
+    # one left-to-right pass: each reference is replaced by the variable's value (never re-expanded),
+    # references to unset variables stay as they are
+    out = re.sub(r"\$(\w+)", lambda m: ENVV.get(m.group(1), m.group(0)), s)
     if out == "~" or out.startswith("~/"):
         out = home + out[1:]
     return out
@@ -105,7 +111,7 @@ def classify(argv, atoms, strings, home):
         if k == "glued":
             parts = ["pre" + s + "post"]
         for p, text in enumerate(parts, 1):
-            ex = expanded(text, home) if k != "glued" else "pre" + expanded(s, home) + "post"
+            ex = expanded(text, home)  # (a glued atom is expanded as one word: pre + value + post)
             cands.append((i, p, text, ex))
     out = []
     ci = 0
